@@ -4,10 +4,10 @@ namespace Pedal.Timeout
 
 set_option maxHeartbeats 4000000 in
 theorem inv_stepT_run (p : Prog) (s : St) (c : TChoice) (h : Inv s) (hrun : s.tpc = .run) : Inv (stepT fixed p s c) := by
-  obtain ⟨hl, hstk, hpend, htimed, hexit, hcap, hfb, hexc, hnext, hid1, hid2, hctx, hraw, hout1, hout2, hret, hdepth, hbefore, hesc⟩ := h
-  rcases s with ⟨gpc, tpc, claim, pending, tExit, timedOut, patches, stdouts, sysStdout, buf1, buf2, real, raw, out1, out2, ctxs, id1, id2, nextId, exc, feedback, excAtReturn, depthAtReturn, excBeforeNext, e2Escaped⟩
+  obtain ⟨hl, hstk, hpend, htimed, hexit, hcap, hfb, hexc, hnext, hid1, hid2, hctx, hraw, hout1, hout2, hret, hdepth, hbefore, hesc, hesc1⟩ := h
+  rcases s with ⟨gpc, tpc, claim, pending, tExit, timedOut, patches, stdouts, sysStdout, buf1, buf2, real, raw, out1, out2, ctxs, id1, id2, nextId, exc, feedback, excAtReturn, depthAtReturn, excBeforeNext, e2Escaped, e1Escaped⟩
   rcases p with ⟨prints, swallows, blocked⟩
-  simp only at hl hstk hpend htimed hexit hcap hfb hexc hnext hid1 hid2 hctx hraw hout1 hout2 hret hdepth hbefore hesc hrun
+  simp only at hl hstk hpend htimed hexit hcap hfb hexc hnext hid1 hid2 hctx hraw hout1 hout2 hret hdepth hbefore hesc hesc1 hrun
   subst hrun
   cases blocked
   · cases pending
@@ -26,8 +26,8 @@ theorem inv_stepT_run (p : Prog) (s : St) (c : TChoice) (h : Inv s) (hrun : s.tp
          constructor <;>
            simp_all [stepT, fixed, legal, expStacks, expFb, expExc, expNext, e1Appended, e1Exc, GPc.rank, TPc.rank,
              St.stopPatches, St.write, St.appendOutput, St.capture, St.lastCtx, St.content, excOfExit] <;> try decide)
-  · have : stepT fixed ⟨prints, swallows, true⟩ ⟨gpc, .run, claim, pending, tExit, timedOut, patches, stdouts, sysStdout, buf1, buf2, real, raw, out1, out2, ctxs, id1, id2, nextId, exc, feedback, excAtReturn, depthAtReturn, excBeforeNext, e2Escaped⟩ c = ⟨gpc, .run, claim, pending, tExit, timedOut, patches, stdouts, sysStdout, buf1, buf2, real, raw, out1, out2, ctxs, id1, id2, nextId, exc, feedback, excAtReturn, depthAtReturn, excBeforeNext, e2Escaped⟩ := by
+  · have : stepT fixed ⟨prints, swallows, true⟩ ⟨gpc, .run, claim, pending, tExit, timedOut, patches, stdouts, sysStdout, buf1, buf2, real, raw, out1, out2, ctxs, id1, id2, nextId, exc, feedback, excAtReturn, depthAtReturn, excBeforeNext, e2Escaped, e1Escaped⟩ c = ⟨gpc, .run, claim, pending, tExit, timedOut, patches, stdouts, sysStdout, buf1, buf2, real, raw, out1, out2, ctxs, id1, id2, nextId, exc, feedback, excAtReturn, depthAtReturn, excBeforeNext, e2Escaped, e1Escaped⟩ := by
       simp [stepT]
     rw [this]
-    exact ⟨hl, hstk, hpend, htimed, hexit, hcap, hfb, hexc, hnext, hid1, hid2, hctx, hraw, hout1, hout2, hret, hdepth, hbefore, hesc⟩
+    exact ⟨hl, hstk, hpend, htimed, hexit, hcap, hfb, hexc, hnext, hid1, hid2, hctx, hraw, hout1, hout2, hret, hdepth, hbefore, hesc, hesc1⟩
 end Pedal.Timeout
